@@ -50,6 +50,19 @@ DUNDER = ["__dict__", "__weakref__", "__class__", "__module__", "__slots__", "__
           "__doc__", "__getitem__", "__eq__", "__hash__", "_dict", "properties", "default", "self",
           "\x00", "\ud800", "a\U0001f600", "‮", "", " ", "é"]
 
+def _compat(word, i):
+    """Replace the i-th ASCII letter by its fullwidth twin (NFKC folds it back)."""
+    j = i % len(word)
+    c = word[j]
+    if not (c.isascii() and c.isalpha()):
+        return word
+    return word[:j] + chr(ord(c) + 0xFEE0) + word[j + 1:]
+
+
+DUNDER += [_compat(w, i) for i, w in enumerate(["class", "elif", "_dict", "__init__", "None", "import", "__class__",
+                                                  "lambda", "__dict__", "def", "__weakref__", "yield"])]
+DUNDER += ["cla\u017fs", "\uff3f\uff3finit__", "de\uff46"]
+
 
 @st.composite
 def wide_values(draw, depth=0):
